@@ -347,3 +347,84 @@ theorem deauth_candidates (st : NS) (peer : String) (o : Ordering)
     split <;> simp_all [Session.toCand]
 
 end Election
+
+namespace Election
+
+theorem find_some_mem {st : NS} {id : Nat} {s : Session} (h : st.find id = some s) :
+    s ∈ st.sessions ∧ s.id = id := by
+  unfold NS.find at h
+  exact ⟨List.mem_of_find?_eq_some h, by simpa using List.find?_some h⟩
+
+theorem find_of_mem_nodup {st : NS} (hnd : (st.sessions.map (·.id)).Nodup) {s : Session}
+    (hs : s ∈ st.sessions) : st.find s.id = some s := by
+  unfold NS.find
+  cases hf : st.sessions.find? (fun x => x.id == s.id) with
+  | none =>
+    have := List.find?_eq_none.mp hf s hs
+    simp at this
+  | some t =>
+    have ht := List.mem_of_find?_eq_some hf
+    have hid : t.id = s.id := by simpa using List.find?_some hf
+    rw [nodup_map_inj (·.id) hnd ht hs hid]
+
+/-- wire nonce round trip: `NonZeroU64::new(conn.getD 0) = conn` for stored nonces (never `some 0`) -/
+def wireOk (s : Session) : Prop := s.conn ≠ some 0
+
+/-- An authenticated, elected session is never told to stop by its own post-authentication
+`CheckSession`. -/
+theorem elected_continues (st : NS) (hnd : (st.sessions.map (·.id)).Nodup)
+    (hw : ∀ s ∈ st.sessions, wireOk s) (id : Nat) (hel : st.isElected id = true) :
+    ∃ r, st.postAuthReply id = some r ∧ r.continues = true := by
+  unfold NS.isElected at hel
+  unfold NS.postAuthReply
+  cases hf : st.find id with
+  | none => simp [hf] at hel
+  | some s =>
+    simp only [hf] at hel ⊢
+    obtain ⟨hmem, hid⟩ := find_some_mem hf
+    cases hauth : s.auth with
+    | false => simp [hauth] at hel
+    | true =>
+      simp only [hauth, Bool.not_true, Bool.false_eq_true, if_false] at hel
+      cases hp : s.peerName with
+      | none => simp [hp] at hel
+      | some peer =>
+        simp only [hp] at hel ⊢
+        refine ⟨_, rfl, ?_⟩
+        unfold NS.checkSession
+        -- the session itself matches (peer, its own nonce)
+        have hconn : (if (s.conn.getD 0 == 0) = true then none else some (s.conn.getD 0)) = s.conn := by
+          have := hw s hmem
+          unfold wireOk at this
+          cases hc : s.conn with
+          | none => simp
+          | some n =>
+            have hn : n ≠ 0 := by intro h0; apply this; rw [hc, h0]
+            simp [hn]
+        simp only [hconn]
+        have hsm : s ∈ st.sessions.filter (fun x => x.peerName == some peer && x.conn == s.conn) := by
+          simp [List.mem_filter, hmem, hp]
+        cases hm : (st.sessions.filter (fun x => x.peerName == some peer && x.conn == s.conn)).map (·.id) with
+        | nil =>
+          have : s.id ∈ (st.sessions.filter (fun x => x.peerName == some peer && x.conn == s.conn)).map (·.id) :=
+            List.mem_map.mpr ⟨s, hsm, rfl⟩
+          rw [hm] at this; simp at this
+        | cons i rest =>
+          cases rest with
+          | cons j rest' => rfl
+          | nil =>
+            -- the single match is the session itself
+            have hi : s.id ∈ [i] := by
+              rw [← hm]; exact List.mem_map.mpr ⟨s, hsm, rfl⟩
+            have hi' : i = id := by
+              have : s.id = i := by simpa using hi
+              rw [← this, hid]
+            subst hi'
+            simp only
+            unfold NS.checkCandidate
+            simp only [hf, hp, hauth, if_true]
+            cases hc : (elect (nameOrd peer st.thisName) (st.candidatesFor peer true)).contains i with
+            | false => rw [hc] at hel; cases hel
+            | true => split <;> simp_all [Reply.continues]
+
+end Election
